@@ -10,6 +10,7 @@ decoder's encoded length (`Spec.inflateSpec`/`zlibSpec`: ⌈bits/8⌉, + 4 for t
 compared with the count every entry point reports, with 0..64 trailing bytes (oracle leg).
 -/
 import MinizProof.Spec.Inflate
+import MinizProof.Lemmas.CoreRefine
 namespace C06
 
 /-- `undo_bytes(l, max)`: returns the number of whole bytes given back and the new bit count. -/
@@ -54,6 +55,23 @@ theorem zlib_length (pre : Array UInt8) (maxDist : Nat) (data : Array UInt8) (r 
         · simp at h
       all_goals simp at h
   · simp at h
+
+open Model.Core in
+/-- END OF STREAM, exactly: when the RFC reference decoder accepts the raw stream that starts the
+    input, one call of the decoder model reports `Done` having consumed exactly ⌈bits used / 8⌉
+    bytes — the last byte holding a bit of the final block — however many unrelated bytes follow
+    in `inp` (the hypothesis is about the whole `inp`, trailing bytes included). -/
+theorem stream_end_consumed_exactly (r : Regs) (inp out : Array UInt8) (outPos budget flags maxDist : Nat)
+    (res : Spec.Inflated) (hstart : r.state = sStart)
+    (hshape : r.rawHeader.size = 4 ∧ r.tableSizes.size = 3 ∧ r.lenCodes.size = 512)
+    (hflat : hasFlag flags fNonWrapping = true) (hz : hasFlag flags fParseZlib = false)
+    (hstop : hasFlag flags fStopOnBlockBoundary = false) (hpos : outPos ≤ out.size)
+    (hspec : Spec.inflateSpec (out.extract 0 outPos) maxDist inp 0 = .accept res)
+    (hroom : outPos + res.out.size ≤ min (outPos + budget) out.size) :
+    (decompress r inp out outPos budget flags).status = stDone ∧
+    (decompress r inp out outPos budget flags).consumed = (res.bitsUsed + 7) / 8 := by
+  have h := refine_raw_flat r inp out outPos budget flags maxDist res hstart hshape hflat hz hstop hpos hspec hroom
+  exact ⟨h.1, h.2.2.1⟩
 
 example : undoBytes 19 5 = (2, 3) := by decide
 example : logicalBits 5 19 = 21 ∧ (21 + 7) / 8 = 3 := by decide
